@@ -31,6 +31,11 @@ theorem C13_all_ops_traced : ∀ op, op < 11 → ∃ e ∈ Yow.Gen.storeOps, e.1
 /-- … and the store of the current source has no public writing method besides the traced ones. -/
 theorem C13_no_untraced_writer : Yow.Gen.untracedWriters = [] := by decide
 
+/-- "If the process dies at ANY instant": inside a COMMIT the all-or-nothing behaviour is SQLite's (trusted base), and SQLite gives it only
+    while its rollback journal or write-ahead log lives on disk.  The store of the current source leaves that in place (regenerated: the
+    journal mode read from the opened store's own connection). -/
+theorem C13_sqlite_atomic_commit_in_force : Yow.Gen.journalMode ∈ ["delete", "truncate", "persist", "wal"] := by decide
+
 theorem storeOp_singleTx (e : Nat × Nat × List Sk) (he : e ∈ Yow.Gen.storeOps) : SingleTx e.2.2 = true := by
   obtain ⟨kd, _, h⟩ := C13_ops_have_allowed_shape e he
   exact allowed_singleTx kd e.2.2 h
